@@ -1,7 +1,7 @@
 (* Property C08 -- statements only: TLS over TCP (C08_tls ...) and QUIC (C08_quic ...). *)
 From Coq Require Import ZArith List Bool.
 From Coq Require String.
-Require Import PyLib SuiteTypes Crypto KeySchedule Packet Reassembly Decryptor TlsSession OutputBuilder Frames Main SessionP C08P QuicAppendP QuicIdP QuicCutP.
+Require Import PyLib SuiteTypes Crypto KeySchedule Packet Reassembly Decryptor TlsSession OutputBuilder Frames Main SessionP C08P QuicAppendP QuicIdP QuicCutP QuicBuildCutP.
 Import ListNotations.
 Open Scope Z_scope.
 
@@ -61,3 +61,16 @@ Theorem C08_quic_session_identity : forall C keylog ftable s p dcid ver s',
   QuicSession.quic_handle_packet C keylog ftable s p dcid ver = Ok s' -> qid s' = qid s.
 Proof. exact quic_session_identity. Qed.
 Print Assumptions C08_quic_session_identity.
+
+(* QUIC, the datagrams built (QUICOutputbuilder.build): from a prefix of a session's collected frames -- what the cut capture has
+   collected, C08_quic -- the same datagrams are built as from all of them, except that the LAST datagram of the shorter build may
+   be a beginning (same time, same direction, a prefix of the payload) of the datagram at its place in the longer build.  With or
+   without -a.  (A cut falls between input datagrams; when their capture times differ the last datagram is complete too:
+   C02_one_output_per_input_datagram.) *)
+Theorem C08_quic_datagrams : forall meta out1 t, out1 <> [] ->
+  exists init last1 last2 more,
+    QuicSession.quic_build meta out1 = init ++ [last1] /\ QuicSession.quic_build meta (out1 ++ t) = init ++ [last2] ++ more /\
+    QuicSession.od_ts last1 = QuicSession.od_ts last2 /\ QuicSession.od_isserver last1 = QuicSession.od_isserver last2 /\
+    prefix (QuicSession.od_payload last1) (QuicSession.od_payload last2).
+Proof. exact build_cut. Qed.
+Print Assumptions C08_quic_datagrams.
